@@ -1,10 +1,22 @@
-(* C08: loop index, connectivity, exterior domains — first layer. *)
+(* C08: make_loop_index on the table of a dyck tree.
+
+   Specification on trees (pre-order numbering with a threaded counter):
+     lents d cl nl   the label of every position of d (and its strand breaks),
+                     cl = loop the forest d sits in, nl = loops opened so far
+     bl d cl nl      the loop that directly contains each strand break, in order
+   The machine (li_rows / li_row / li_pos) is first re-read as a machine over
+   entry lists (li_es), then simulated on `ents d` exactly as Mpt.v does for
+   make_pair_table: from a state whose current loop is the label of the top of
+   the stack, the entries of d extend the label table by `lents d`, leave stack
+   and current loop unchanged and advance the strand bookkeeping by `bl d`. *)
 From Coq Require Import List Arith Lia Bool NArith.
-From DSD Require Import Base.Str Base.Errors Model.ComplexUtils Model.Loops.
+From DSD Require Import Base.Str Base.Errors Model.ComplexUtils Model.Loops Dyck.Dyck
+  Proofs.Mpt Proofs.Db Proofs.Assoc.
 Import ListNotations.
 
-(* is_connected is exactly "the loop index can be computed" whenever the only
-   failure is SecondaryStructureError *)
+(* ------------------------------------------------------------------ *)
+(* first layer: is_connected is "the loop index can be computed"       *)
+
 Lemma is_connected_true sst :
   is_connected sst = Ok true <-> exists le, loop_index_of sst = Ok le.
 Proof.
@@ -13,4 +25,565 @@ Proof.
   - split.
     + destruct (str_eqb k eSSE); discriminate.
     + intros [le H]; discriminate.
+Qed.
+
+(* ------------------------------------------------------------------ *)
+(* specification on trees                                              *)
+
+Inductive lentry := LB | LP (n : nat).
+
+Fixpoint npairs (d : dyck) : nat :=
+  match d with
+  | DNil => 0
+  | DU r | DB r => npairs r
+  | DP i r => S (npairs i + npairs r)
+  end.
+
+Fixpoint lents (d : dyck) (cl nl : nat) : list lentry :=
+  match d with
+  | DNil => []
+  | DU r => LP cl :: lents r cl nl
+  | DB r => LB :: lents r cl nl
+  | DP i r => LP (S nl) :: lents i (S nl) (S nl) ++ LP (S nl) :: lents r cl (S nl + npairs i)
+  end.
+
+(* the loop directly containing each strand break, in order of the breaks *)
+Fixpoint bl (d : dyck) (cl nl : nat) : list nat :=
+  match d with
+  | DNil => []
+  | DU r => bl r cl nl
+  | DB r => cl :: bl r cl nl
+  | DP i r => bl i (S nl) (S nl) ++ bl r cl (S nl + npairs i)
+  end.
+
+Definition ltab := list (list nat).
+
+Fixpoint appL (pc : ltab * list nat) (es : list lentry) : ltab * list nat :=
+  match es with
+  | [] => pc
+  | LB :: r => appL (fst pc ++ [snd pc], []) r
+  | LP v :: r => appL (fst pc, snd pc ++ [v]) r
+  end.
+
+(* the loop index of a tree: pre-order numbering, 0 outermost *)
+Definition loops_of (d : dyck) : ltab :=
+  let pc := appL ([], []) (lents d 0 0) in fst pc ++ [snd pc].
+
+Lemma appL_app pc es1 es2 : appL pc (es1 ++ es2) = appL (appL pc es1) es2.
+Proof. revert pc; induction es1 as [|[|v] r IH]; intros pc; cbn; auto. Qed.
+
+Definition posL (pc : ltab * list nat) : loc := (length (fst pc), length (snd pc)).
+
+Lemma posL_LP pc v : posL (fst pc, snd pc ++ [v]) = (fst (posL pc), S (snd (posL pc))).
+Proof. unfold posL. cbn [fst snd]. rewrite app_length. cbn [length]. rewrite Nat.add_1_r. reflexivity. Qed.
+Lemma posL_LB pc : posL (fst pc ++ [snd pc], @nil nat) = (S (fst (posL pc)), 0).
+Proof. unfold posL. cbn [fst snd]. rewrite app_length. cbn [length]. rewrite Nat.add_1_r. reflexivity. Qed.
+
+Lemma posL_appL_lents d : forall pc cl nl, posL (appL pc (lents d cl nl)) = adv d (posL pc).
+Proof.
+  induction d as [|r IH|r IH|i IHi r IHr]; intros pc cl nl; cbn [lents adv appL]; auto.
+  - rewrite IH, posL_LP. reflexivity.
+  - rewrite IH, posL_LB. reflexivity.
+  - rewrite appL_app. cbn [appL]. rewrite IHr, posL_LP, IHi, posL_LP. reflexivity.
+Qed.
+
+(* ------------------------------------------------------------------ *)
+(* reading a label of the table under construction                     *)
+
+Lemma nth2_app_cur done cur l p v : nth2 done cur p = Some v -> nth2 done (cur ++ l) p = Some v.
+Proof.
+  unfold nth2. destruct (fst p <? length done); [auto|].
+  destruct (fst p =? length done); [|discriminate].
+  intros H. rewrite nth_error_app1; [exact H|]. apply nth_error_Some. congruence.
+Qed.
+
+Lemma nth2_close done cur p v : nth2 done cur p = Some v -> nth2 (done ++ [cur]) [] p = Some v.
+Proof.
+  unfold nth2. rewrite app_length. cbn [length].
+  destruct (fst p <? length done) eqn:E.
+  - apply Nat.ltb_lt in E.
+    replace (fst p <? length done + 1) with true by (symmetry; apply Nat.ltb_lt; lia).
+    rewrite nth_error_app1 by exact E. auto.
+  - apply Nat.ltb_ge in E. destruct (fst p =? length done) eqn:E2; [|discriminate].
+    apply Nat.eqb_eq in E2.
+    replace (fst p <? length done + 1) with true by (symmetry; apply Nat.ltb_lt; lia).
+    rewrite nth_error_app2 by lia. rewrite E2, Nat.sub_diag. cbn. auto.
+Qed.
+
+Lemma nth2_here done cur v : nth2 done (cur ++ [v]) (length done, length cur) = Some v.
+Proof.
+  unfold nth2. cbn [fst snd]. rewrite Nat.ltb_irrefl, Nat.eqb_refl.
+  rewrite nth_error_app2 by lia. rewrite Nat.sub_diag. reflexivity.
+Qed.
+
+Lemma nth2_appL es : forall pc p v,
+  nth2 (fst pc) (snd pc) p = Some v -> nth2 (fst (appL pc es)) (snd (appL pc es)) p = Some v.
+Proof.
+  induction es as [|[|x] r IH]; intros pc p v H; cbn [appL]; [exact H| |].
+  - apply IH. cbn [fst snd]. apply nth2_close, H.
+  - apply IH. cbn [fst snd]. apply nth2_app_cur, H.
+Qed.
+
+(* ------------------------------------------------------------------ *)
+(* the machine over entry lists                                        *)
+
+Record est := mkE { e_s : lst; e_fr : nat; e_ext : list nat; e_my : list (nat * nat) }.
+
+(* end of a strand: the body of the outer loop after the inner one *)
+Definition close_row (comp : bool) (x : est) : res est :=
+  let s := e_s x in
+  let to := l_cl s in
+  let s2 := mkl (l_done s ++ [l_cur s]) [] (l_stack s) (l_cl s) (l_nl s) in
+  if existsb (Nat.eqb to) (e_ext x)
+  then if comp then Ok (mkE s2 to (e_ext x) (e_my x ++ [(e_fr x, to)])) else Err eSSE
+  else Ok (mkE s2 to (e_ext x ++ [to]) (e_my x ++ [(e_fr x, to)])).
+
+Fixpoint li_es (comp : bool) (x : est) (es : list entry) : res est :=
+  match es with
+  | [] => Ok x
+  | EB :: r => dor x' <- close_row comp x; li_es comp x' r
+  | EP v :: r =>
+      dor s' <- li_pos (e_s x) (length (l_done (e_s x))) (length (l_cur (e_s x))) v;
+      li_es comp (mkE s' (e_fr x) (e_ext x) (e_my x)) r
+  end.
+
+(* rows of an entry list, consumed from the front: first row, other rows *)
+Fixpoint rowsF (es : list entry) : row * tab :=
+  match es with
+  | [] => ([], [])
+  | EB :: r => let p := rowsF r in ([], fst p :: snd p)
+  | EP v :: r => let p := rowsF r in (v :: fst p, snd p)
+  end.
+
+Lemma rowsF_appE es : forall pc,
+  fst (appE pc es) ++ [snd (appE pc es)] = fst pc ++ (snd pc ++ fst (rowsF es)) :: snd (rowsF es).
+Proof.
+  induction es as [|[|v] r IH]; intros pc; cbn [appE rowsF fst snd].
+  - rewrite app_nil_r. reflexivity.
+  - rewrite IH. cbn [fst snd app]. rewrite <- app_assoc, app_nil_r. reflexivity.
+  - rewrite IH. cbn [fst snd]. rewrite <- app_assoc. reflexivity.
+Qed.
+
+Lemma tab_of_rowsF d : tab_of d = fst (rowsF (ents d (0, 0))) :: snd (rowsF (ents d (0, 0))).
+Proof. unfold tab_of. cbn zeta. rewrite rowsF_appE. reflexivity. Qed.
+
+(* the rest of the current row, then the remaining rows *)
+Definition li_mid (comp : bool) (x : est) (si di : nat) (a : row) (t : tab) :=
+  dor s1 <- li_row (e_s x) si di a;
+  dor x' <- close_row comp (mkE s1 (e_fr x) (e_ext x) (e_my x));
+  li_rows comp (e_s x') (S si) (e_ext x') (e_my x') t.
+
+Lemma li_rows_cons comp s si ext my r t :
+  l_cur s = [] ->
+  li_rows comp s si ext my (r :: t) = li_mid comp (mkE s (l_cl s) ext my) si 0 r t.
+Proof.
+  intros Hc. destruct s as [dn cu st cl nl]. cbn [l_cur] in Hc. subst cu.
+  unfold li_mid. cbn [li_rows e_s e_fr e_ext e_my l_done l_stack l_cl l_nl].
+  destruct (li_row _ si 0 r) as [s1|k]; cbn [rbind]; [|reflexivity].
+  unfold close_row. cbn [e_s e_fr e_ext e_my].
+  destruct (existsb (Nat.eqb (l_cl s1)) ext); [destruct comp|]; reflexivity.
+Qed.
+
+Lemma li_pos_shape s si di e s' :
+  li_pos s si di e = Ok s' ->
+  l_done s' = l_done s /\ exists v, l_cur s' = l_cur s ++ [v].
+Proof.
+  unfold li_pos. destruct e as [p|].
+  - destruct (loc_ltb (si, di) p).
+    + destruct (loc_ltb p (si, di)).
+      * intros H. injection H as <-. cbn. eauto.
+      * intros H. injection H as <-. cbn. eauto.
+    + destruct (loc_ltb p (si, di)).
+      * destruct (l_stack s); [discriminate|]. intros H. injection H as <-. cbn. eauto.
+      * intros H. injection H as <-. cbn. eauto.
+  - intros H. injection H as <-. cbn. eauto.
+Qed.
+
+Lemma close_row_shape comp x x' :
+  close_row comp x = Ok x' ->
+  e_fr x' = l_cl (e_s x') /\ l_cur (e_s x') = [] /\
+  l_done (e_s x') = l_done (e_s x) ++ [l_cur (e_s x)].
+Proof.
+  unfold close_row. destruct (existsb _ _); [destruct comp; [|discriminate]|];
+    intros H; injection H as <-; cbn; auto.
+Qed.
+
+Lemma est_eta x : mkE (e_s x) (e_fr x) (e_ext x) (e_my x) = x.
+Proof. destruct x; reflexivity. Qed.
+
+Lemma li_mid_es comp es : forall x,
+  li_mid comp x (length (l_done (e_s x))) (length (l_cur (e_s x))) (fst (rowsF es)) (snd (rowsF es)) =
+  dor x1 <- li_es comp x es; dor x2 <- close_row comp x1; Ok (l_done (e_s x2), e_ext x2, e_my x2).
+Proof.
+  induction es as [|[|v] r IH]; intros x; cbn [rowsF li_es fst snd].
+  - unfold li_mid. cbn [li_row rbind]. rewrite est_eta.
+    destruct (close_row comp x) as [x'|k]; reflexivity.
+  - unfold li_mid at 1. cbn [li_row rbind]. rewrite est_eta.
+    destruct (close_row comp x) as [x'|k] eqn:E; cbn [rbind]; [|reflexivity].
+    destruct (close_row_shape _ _ _ E) as (Hfr & Hcur & Hdone).
+    rewrite li_rows_cons by exact Hcur. rewrite <- Hfr, est_eta.
+    specialize (IH x'). rewrite Hcur, Hdone in IH. rewrite app_length in IH. cbn [length] in IH.
+    rewrite Nat.add_1_r in IH. exact IH.
+  - unfold li_mid at 1. cbn [li_row].
+    destruct (li_pos (e_s x) _ _ v) as [s1|k] eqn:E; cbn [rbind]; [|reflexivity].
+    destruct (li_pos_shape _ _ _ _ _ E) as (Hdone & w & Hcur).
+    specialize (IH (mkE s1 (e_fr x) (e_ext x) (e_my x))). cbn [e_s e_fr e_ext e_my] in IH.
+    rewrite Hdone, Hcur in IH. rewrite app_length in IH. cbn [length] in IH.
+    rewrite Nat.add_1_r in IH. exact IH.
+Qed.
+
+Definition est0 : est := mkE (mkl [] [] [] 0 0) 0 [] [].
+
+Lemma raw_es comp d :
+  make_loop_index_raw comp (tab_of d) =
+  dor x1 <- li_es comp est0 (ents d (0, 0)); dor x2 <- close_row comp x1;
+  Ok (l_done (e_s x2), e_ext x2, e_my x2).
+Proof.
+  unfold make_loop_index_raw. rewrite tab_of_rowsF.
+  rewrite li_rows_cons by reflexivity. cbn [l_cl].
+  apply (li_mid_es comp (ents d (0, 0)) est0).
+Qed.
+
+(* ------------------------------------------------------------------ *)
+(* strand bookkeeping as a function of the break loops                  *)
+
+Definition bk := (nat * list nat * list (nat * nat))%type.   (* fr, exterior, myext *)
+
+Definition bk_step (comp : bool) (b : bk) (l : nat) : res bk :=
+  let '(fr, ext, my) := b in
+  if existsb (Nat.eqb l) ext
+  then if comp then Ok (l, ext, my ++ [(fr, l)]) else Err eSSE
+  else Ok (l, ext ++ [l], my ++ [(fr, l)]).
+
+Fixpoint bk_steps (comp : bool) (b : bk) (ls : list nat) : res bk :=
+  match ls with
+  | [] => Ok b
+  | l :: r => dor b' <- bk_step comp b l; bk_steps comp b' r
+  end.
+
+Lemma bk_steps_app comp ls1 ls2 : forall b,
+  bk_steps comp b (ls1 ++ ls2) = dor b' <- bk_steps comp b ls1; bk_steps comp b' ls2.
+Proof.
+  induction ls1 as [|l r IH]; intros b; cbn [app bk_steps rbind]; [reflexivity|].
+  destruct (bk_step comp b l) as [b'|k]; cbn [rbind]; [apply IH|reflexivity].
+Qed.
+
+Definition bk_of (x : est) : bk := (e_fr x, e_ext x, e_my x).
+Definition with_bk (s : lst) (b : bk) : est := mkE s (fst (fst b)) (snd (fst b)) (snd b).
+
+Lemma close_row_bk comp x :
+  close_row comp x =
+  dor b <- bk_step comp (bk_of x) (l_cl (e_s x));
+  Ok (with_bk (mkl (l_done (e_s x) ++ [l_cur (e_s x)]) [] (l_stack (e_s x)) (l_cl (e_s x)) (l_nl (e_s x))) b).
+Proof.
+  unfold close_row, bk_step, bk_of, with_bk.
+  destruct (existsb _ _); [destruct comp|]; reflexivity.
+Qed.
+
+(* ------------------------------------------------------------------ *)
+(* the simulation                                                       *)
+
+(* the current loop is the label of the innermost open bracket (0: none) *)
+Definition top_ok (s : lst) : Prop :=
+  match l_stack s with
+  | [] => l_cl s = 0
+  | p :: _ => nth2 (l_done s) (l_cur s) p = Some (l_cl s)
+  end.
+
+Definition ext_state (s : lst) (d : dyck) : lst :=
+  let pc := appL (l_done s, l_cur s) (lents d (l_cl s) (l_nl s)) in
+  mkl (fst pc) (snd pc) (l_stack s) (l_cl s) (l_nl s + npairs d).
+
+Lemma lt_loc_adv_S i p : lt_loc p (adv i (fst p, S (snd p))).
+Proof.
+  pose proof (adv_ge i (fst p, S (snd p))) as H.
+  unfold le_loc, lt_loc in *. cbn [fst snd] in *. lia.
+Qed.
+
+Lemma li_pos_open s si di q :
+  lt_loc (si, di) q ->
+  li_pos s si di (Some q) =
+  Ok (mkl (l_done s) (l_cur s ++ [S (l_nl s)]) ((si, di) :: l_stack s) (S (l_nl s)) (S (l_nl s))).
+Proof.
+  intros H. unfold li_pos. rewrite (ltb_loc_true _ _ H), (ltb_loc_false _ _ H). reflexivity.
+Qed.
+
+Lemma li_pos_close s si di p p' st :
+  lt_loc p (si, di) -> l_stack s = p' :: st ->
+  li_pos s si di (Some p) =
+  Ok (mkl (l_done s) (l_cur s ++ [l_cl s]) st
+          (match st with
+           | [] => 0
+           | ploc :: _ => match nth2 (l_done s) (l_cur s ++ [l_cl s]) ploc with Some v => v | None => 0 end
+           end) (l_nl s)).
+Proof.
+  intros H Hs. unfold li_pos. rewrite (ltb_loc_false _ _ H), (ltb_loc_true _ _ H), Hs. reflexivity.
+Qed.
+
+Lemma li_es_tree comp d : forall x rest pos cl nl,
+  top_ok (e_s x) ->
+  pos = (length (l_done (e_s x)), length (l_cur (e_s x))) ->
+  cl = l_cl (e_s x) -> nl = l_nl (e_s x) ->
+  li_es comp x (ents d pos ++ rest) =
+  dor b <- bk_steps comp (bk_of x) (bl d cl nl);
+  li_es comp (with_bk (ext_state (e_s x) d) b) rest.
+Proof.
+  induction d as [|r IH|r IH|i IHi r IHr]; intros x rest pos cl0 nl0 Htop -> -> ->;
+    destruct x as [[dn cu st cl nl] fr ext my];
+    cbn [e_s e_fr e_ext e_my l_done l_cur l_cl l_nl l_stack] in *.
+  - cbn [ents app bl bk_steps rbind]. unfold ext_state, with_bk, bk_of. cbn [lents appL npairs fst snd l_done l_cur l_cl l_nl l_stack e_fr e_ext e_my].
+    rewrite Nat.add_0_r. reflexivity.
+  - (* DU *)
+    cbn [ents app li_es bl fst snd e_s e_fr e_ext e_my l_done l_cur].
+    cbn [li_pos rbind l_cl l_nl l_stack l_done l_cur].
+    rewrite (IH (mkE (mkl dn (cu ++ [cl]) st cl nl) fr ext my) rest _ cl nl).
+    + unfold ext_state, bk_of. cbn [lents appL npairs fst snd e_s e_fr e_ext e_my l_done l_cur l_cl l_nl l_stack]. reflexivity.
+    + unfold top_ok in *. cbn [e_s l_stack l_done l_cur l_cl] in *.
+      destruct st as [|p st']; [exact Htop|]. apply nth2_app_cur, Htop.
+    + cbn [e_s l_done l_cur]. rewrite app_length. cbn [length]. rewrite Nat.add_1_r. reflexivity.
+    + reflexivity.
+    + reflexivity.
+  - (* DB *)
+    cbn [ents app li_es bl bk_steps fst snd].
+    rewrite close_row_bk. cbn [e_s l_done l_cur l_cl l_nl l_stack].
+    destruct (bk_step comp (bk_of _) cl) as [b|k] eqn:E; cbn [rbind]; [|reflexivity].
+    rewrite (IH (with_bk (mkl (dn ++ [cu]) [] st cl nl) b) rest _ cl nl).
+    + unfold ext_state, bk_of, with_bk. cbn [lents appL npairs fst snd e_s e_fr e_ext e_my l_done l_cur l_cl l_nl l_stack].
+      destruct b as [[fr' ext'] my']. reflexivity.
+    + unfold top_ok in *. cbn [with_bk e_s l_stack l_done l_cur l_cl] in *.
+      destruct st as [|p st']; [exact Htop|]. apply nth2_close, Htop.
+    + cbn [with_bk e_s l_done l_cur]. rewrite app_length. cbn [length]. rewrite Nat.add_1_r. reflexivity.
+    + reflexivity.
+    + reflexivity.
+  - (* DP *)
+    cbn [ents bl fst snd].
+    set (p := (length dn, length cu)).
+    set (q := adv i (length dn, S (length cu))).
+    assert (Hpq : lt_loc p q) by (apply (lt_loc_adv_S i p)).
+    cbn [app li_es e_s e_fr e_ext e_my l_done l_cur].
+    (* the opening bracket *)
+    rewrite (li_pos_open _ _ _ q Hpq). fold p.
+    cbn [rbind l_cl l_nl l_stack l_done l_cur].
+    rewrite <- app_assoc. cbn [app].
+    set (s1 := mkl dn (cu ++ [S nl]) (p :: st) (S nl) (S nl)).
+    assert (Htop1 : top_ok s1).
+    { unfold top_ok, s1. cbn [l_stack l_done l_cur l_cl]. apply nth2_here. }
+    rewrite (IHi (mkE s1 fr ext my) _
+                 (length dn, S (length cu)) (S nl) (S nl) Htop1);
+      [| unfold s1; cbn [e_s l_done l_cur]; rewrite app_length; cbn [length]; rewrite Nat.add_1_r; reflexivity
+       | reflexivity | reflexivity].
+    rewrite bk_steps_app. unfold bk_of. cbn [e_fr e_ext e_my e_s].
+    destruct (bk_steps comp (fr, ext, my) (bl i (S nl) (S nl))) as [b1|k]; cbn [rbind]; [|reflexivity].
+    (* the closing bracket, from the state after the inner forest *)
+    set (s2 := ext_state s1 i).
+    assert (Hpos2 : (length (l_done s2), length (l_cur s2)) = q).
+    { unfold s2, ext_state. cbn [l_done l_cur].
+      pose proof (posL_appL_lents i (l_done s1, l_cur s1) (l_cl s1) (l_nl s1)) as H.
+      unfold posL in H. cbn [fst snd] in H. rewrite H. unfold s1. cbn [l_done l_cur].
+      rewrite app_length. cbn [length]. rewrite Nat.add_1_r. reflexivity. }
+    cbn [li_es]. unfold with_bk. cbn [e_s e_fr e_ext e_my].
+    assert (Hq1 : length (l_done s2) = fst q) by (rewrite <- Hpos2; reflexivity).
+    assert (Hq2 : length (l_cur s2) = snd q) by (rewrite <- Hpos2; reflexivity).
+    rewrite Hq1, Hq2.
+    assert (Hst2 : l_stack s2 = p :: st) by reflexivity.
+    rewrite (li_pos_close s2 (fst q) (snd q) p p st) by (try exact Hst2; destruct q; exact Hpq).
+    cbn [rbind].
+    assert (Hcl2 : match st with
+                   | [] => 0
+                   | ploc :: _ => match nth2 (l_done s2) (l_cur s2 ++ [l_cl s2]) ploc with Some v => v | None => 0 end
+                   end = cl).
+    { unfold top_ok in Htop. cbn [l_stack l_done l_cur l_cl] in Htop.
+      destruct st as [|ploc st']; [symmetry; exact Htop|].
+      assert (H1 : nth2 (l_done s1) (l_cur s1) ploc = Some cl).
+      { unfold s1. cbn [l_done l_cur]. apply nth2_app_cur, Htop. }
+      assert (H2 : nth2 (l_done s2) (l_cur s2) ploc = Some cl).
+      { unfold s2, ext_state. cbn [l_done l_cur].
+        apply (nth2_appL _ (l_done s1, l_cur s1)). exact H1. }
+      rewrite (nth2_app_cur _ _ _ _ _ H2). reflexivity. }
+    rewrite Hcl2.
+    set (s3 := mkl (l_done s2) (l_cur s2 ++ [l_cl s2]) st cl (l_nl s2)).
+    assert (Htop3 : top_ok s3).
+    { unfold top_ok, s3. cbn [l_stack l_done l_cur l_cl].
+      unfold top_ok in Htop. cbn [l_stack l_done l_cur l_cl] in Htop.
+      destruct st as [|ploc st']; [exact Htop|].
+      apply nth2_app_cur. unfold s2, ext_state. cbn [l_done l_cur].
+      apply (nth2_appL _ (l_done s1, l_cur s1)). unfold s1. cbn [l_done l_cur fst snd].
+      apply nth2_app_cur, Htop. }
+    rewrite (IHr (mkE s3 (fst (fst b1)) (snd (fst b1)) (snd b1)) rest
+                 (fst q, S (snd q)) cl (S nl + npairs i) Htop3);
+      [| unfold s3; cbn [e_s l_done l_cur]; rewrite app_length; cbn [length];
+         rewrite Nat.add_1_r, Hq1, Hq2; reflexivity
+       | reflexivity | reflexivity].
+    unfold bk_of. cbn [e_fr e_ext e_my e_s].
+    replace (fst (fst b1), snd (fst b1), snd b1) with b1 by (destruct b1 as [[? ?] ?]; reflexivity).
+    destruct (bk_steps comp b1 (bl r cl (S nl + npairs i))) as [b2|k]; cbn [rbind]; [|reflexivity].
+    unfold with_bk. do 2 f_equal.
+    unfold ext_state. cbn [lents npairs l_done l_cur l_cl l_nl l_stack appL fst snd].
+    rewrite appL_app. cbn [appL fst snd].
+    unfold s3. cbn [l_done l_cur l_cl l_nl l_stack].
+    unfold s2, ext_state. cbn [l_done l_cur l_cl l_nl l_stack]. unfold s1. cbn [l_done l_cur l_cl l_nl l_stack].
+    f_equal. lia.
+Qed.
+
+(* ------------------------------------------------------------------ *)
+(* the bookkeeping in closed form                                       *)
+
+Fixpoint chain (fr : nat) (ls : list nat) : list (nat * nat) :=
+  match ls with
+  | [] => []
+  | l :: r => (fr, l) :: chain l r
+  end.
+
+Lemma last_cons {A} (r : list A) : forall l d, last (l :: r) d = last r l.
+Proof.
+  induction r as [|x r IH]; intros l d; [reflexivity|].
+  change (last (l :: x :: r) d) with (last (x :: r) d).
+  rewrite (IH x d), (IH x l). reflexivity.
+Qed.
+
+Lemma existsb_eqb_In l ext : existsb (Nat.eqb l) ext = true <-> In l ext.
+Proof.
+  rewrite existsb_exists. split.
+  - intros (x & Hx & E). apply Nat.eqb_eq in E. subst x. exact Hx.
+  - intros H. exists l. split; [exact H|apply Nat.eqb_refl].
+Qed.
+
+Lemma existsb_eqb_notIn l ext : ~ In l ext -> existsb (Nat.eqb l) ext = false.
+Proof.
+  intros H. destruct (existsb (Nat.eqb l) ext) eqn:E; [|reflexivity].
+  apply existsb_eqb_In in E. contradiction.
+Qed.
+
+(* all loops distinct: both modes succeed, the exterior list is the list of break loops *)
+Lemma bk_steps_nodup comp ls : forall fr ext my,
+  NoDup (ext ++ ls) ->
+  bk_steps comp (fr, ext, my) ls = Ok (last ls fr, ext ++ ls, my ++ chain fr ls).
+Proof.
+  induction ls as [|l r IH]; intros fr ext my H; cbn [bk_steps chain last].
+  - rewrite !app_nil_r. reflexivity.
+  - assert (Hl : ~ In l ext).
+    { apply NoDup_remove_2 in H. intros Hin. apply H. apply in_or_app. left. exact Hin. }
+    unfold bk_step. rewrite (existsb_eqb_notIn _ _ Hl). cbn [rbind].
+    rewrite IH by (rewrite <- app_assoc; exact H).
+    rewrite <- !app_assoc. cbn [app]. f_equal. f_equal. f_equal.
+    symmetry. apply (last_cons r l fr).
+Qed.
+
+(* a repeated loop: components = False raises SecondaryStructureError *)
+Lemma bk_steps_dup ls : forall fr ext my,
+  NoDup ext -> ~ NoDup (ext ++ ls) -> bk_steps false (fr, ext, my) ls = Err eSSE.
+Proof.
+  induction ls as [|l r IH]; intros fr ext my Hnd H; cbn [bk_steps].
+  - rewrite app_nil_r in H. contradiction.
+  - unfold bk_step. destruct (existsb (Nat.eqb l) ext) eqn:E; cbn [rbind]; [reflexivity|].
+    apply IH.
+    + assert (Hl : ~ In l ext).
+      { intros Hin. apply existsb_eqb_In in Hin. congruence. }
+      clear - Hnd Hl. induction ext as [|x ext IHe]; cbn [app].
+      * constructor; [intros []|constructor].
+      * inversion Hnd as [|? ? Hx Hn]; subst. constructor.
+        -- intros Hin. apply in_app_or in Hin. destruct Hin as [Hin|[->|[]]]; [contradiction|].
+           apply Hl. left. reflexivity.
+        -- apply IHe; [exact Hn|]. intros Hin. apply Hl. right. exact Hin.
+    + rewrite <- app_assoc. exact H.
+Qed.
+
+(* components = True never raises; the per-strand intervals are the chain of break loops *)
+Lemma bk_steps_comp ls : forall fr ext my,
+  exists ext', bk_steps true (fr, ext, my) ls = Ok (last ls fr, ext', my ++ chain fr ls).
+Proof.
+  induction ls as [|l r IH]; intros fr ext my; cbn [bk_steps chain last].
+  - exists ext. rewrite app_nil_r. reflexivity.
+  - unfold bk_step. destruct (existsb (Nat.eqb l) ext); cbn [rbind].
+    + destruct (IH l ext (my ++ [(fr, l)])) as [ext' H]. exists ext'. rewrite H.
+      rewrite <- app_assoc. cbn [app]. rewrite <- (last_cons r l fr). reflexivity.
+    + destruct (IH l (ext ++ [l]) (my ++ [(fr, l)])) as [ext' H]. exists ext'. rewrite H.
+      rewrite <- app_assoc. cbn [app]. rewrite <- (last_cons r l fr). reflexivity.
+Qed.
+
+(* ------------------------------------------------------------------ *)
+(* make_loop_index on the table of a tree                               *)
+
+(* break loops of the whole structure, then the loop of the outer end *)
+Definition ends (d : dyck) : list nat := bl d 0 0 ++ [0].
+
+Lemma raw_tree comp d :
+  make_loop_index_raw comp (tab_of d) =
+  dor b <- bk_steps comp (0, [], []) (ends d); Ok (loops_of d, snd (fst b), snd b).
+Proof.
+  rewrite raw_es. rewrite <- (app_nil_r (ents d (0, 0))).
+  rewrite (li_es_tree comp d est0 [] (0, 0) 0 0) by reflexivity.
+  unfold ends. rewrite bk_steps_app. unfold bk_of, est0. cbn [e_fr e_ext e_my e_s].
+  destruct (bk_steps comp (0, [], []) (bl d 0 0)) as [b|k]; cbn [rbind li_es bk_steps]; [|reflexivity].
+  rewrite close_row_bk. unfold with_bk at 1 2 3 4 5 6. cbn [e_s]. unfold ext_state. cbn [l_done l_cur l_cl l_nl l_stack].
+  unfold bk_of. cbn [e_fr e_ext e_my].
+  replace (fst (fst b), snd (fst b), snd b) with b by (destruct b as [[? ?] ?]; reflexivity).
+  destruct (bk_step comp b 0) as [b'|k]; cbn [rbind]; [|reflexivity].
+  unfold with_bk. cbn [e_s e_ext e_my l_done]. reflexivity.
+Qed.
+
+(* li_spec, components = True: always succeeds *)
+Theorem li_spec_comp d :
+  make_loop_index_comp (tab_of d) = Ok (loops_of d, chain 0 (ends d)).
+Proof.
+  unfold make_loop_index_comp. rewrite raw_tree.
+  destruct (bk_steps_comp (ends d) 0 [] []) as [ext' H]. rewrite H. reflexivity.
+Qed.
+
+(* li_spec + ext_spec, components = False on a structure without repeated break loop *)
+Theorem li_spec_ok d :
+  NoDup (ends d) -> make_loop_index (tab_of d) = Ok (loops_of d, ends d).
+Proof.
+  intros H. unfold make_loop_index. rewrite raw_tree.
+  rewrite (bk_steps_nodup false (ends d) 0 [] []) by exact H. reflexivity.
+Qed.
+
+Theorem li_spec_err d :
+  ~ NoDup (ends d) -> make_loop_index (tab_of d) = Err eSSE.
+Proof.
+  intros H. unfold make_loop_index. rewrite raw_tree.
+  rewrite (bk_steps_dup (ends d) 0 [] []); [reflexivity|constructor|exact H].
+Qed.
+
+Lemma NoDup_dec_nat (l : list nat) : {NoDup l} + {~ NoDup l}.
+Proof.
+  induction l as [|x l IH].
+  - left. constructor.
+  - destruct (in_dec Nat.eq_dec x l) as [Hin|Hin].
+    + right. intros H. inversion H; contradiction.
+    + destruct IH as [Hn|Hn].
+      * left. constructor; assumption.
+      * right. intros H. inversion H; contradiction.
+Qed.
+
+(* no third outcome *)
+Corollary li_accepts_iff d :
+  (exists r, make_loop_index (tab_of d) = Ok r) <-> NoDup (ends d).
+Proof.
+  split.
+  - intros [r H]. destruct (NoDup_dec_nat (ends d)) as [Hn|Hn]; [exact Hn|].
+    rewrite (li_spec_err d Hn) in H. discriminate.
+  - intros H. eexists. apply li_spec_ok, H.
+Qed.
+
+(* non-vacuity: "(.+(+)).(+.)"  *)
+Example ex_li :
+  let d := DP (DU (DB (DP (DB DNil) DNil))) (DU (DP (DB (DU DNil)) DNil)) in
+  render d = [SO; SD; SB; SO; SB; SC; SC; SD; SO; SB; SD; SC] /\
+  NoDup (ends d) /\
+  make_loop_index (tab_of d) = Ok ([[1; 1]; [2]; [2; 1; 0; 3]; [3; 3]], [1; 2; 3; 0]) /\
+  make_loop_index_comp (tab_of d) =
+    Ok ([[1; 1]; [2]; [2; 1; 0; 3]; [3; 3]], [(0, 1); (1, 2); (2, 3); (3, 0)]).
+Proof.
+  cbn zeta. split; [reflexivity|]. split.
+  - unfold ends. cbn. repeat constructor; cbn; intuition discriminate.
+  - split; reflexivity.
+Qed.
+
+Example ex_li_disconnected :
+  let d := DP (DU (DB (DU (DB (DU DNil))))) DNil in   (* "(.+.+.)" *)
+  ~ NoDup (ends d) /\ make_loop_index (tab_of d) = Err eSSE.
+Proof.
+  cbn zeta. split; [|reflexivity].
+  unfold ends. cbn. intros H. inversion H as [|? ? Hin _]. apply Hin. left. reflexivity.
 Qed.
